@@ -190,6 +190,8 @@ def d1_progress(ctx, idx):
         if not round_tests:
             if _size_progress(r, fi, cfg, w, wt, pending):
                 return
+            if _list_progress(r, fi, cfg, w, wt, pending):
+                return
         if len(round_tests) != 1:
             raise AnalysisError('gen_symbols_samples: expected one end-of-round test of a progress flag, found %d' % len(round_tests))
         tstmt, flag, noprog_edge = round_tests[0]
@@ -295,7 +297,217 @@ def _size_progress(r, fi, cfg, w, wt, pending):
     return True
 
 
-def _no_progress_raises(r, fi, cfg, w, wt, tstmt, noprog_edge, where):
+def _list_progress(r, fi, cfg, w, wt, pending):
+    """Progress recorded as the list of dependents evaluated in the round: `E = []` at the start of every round, `E.append(s)`
+    next to the removal, `if not E` at the end.  Returns False if that idiom is not present."""
+    fn = fi.node
+    lists = {}
+    for s_ in w.body:
+        if isinstance(s_, ast.Assign) and len(s_.targets) == 1 and isinstance(s_.targets[0], ast.Name) \
+                and ((isinstance(s_.value, ast.List) and not s_.value.elts) or X.m("list()", s_.value) is not None):
+            lists[s_.targets[0].id] = s_
+    found = None
+    for s_ in w.body:
+        if not isinstance(s_, ast.If):
+            continue
+        for n, init in lists.items():
+            names = {n}
+            # a snapshot `t = E` taken after the pass (e.g. the value an inlined helper returned)
+            for x in w.body:
+                if isinstance(x, ast.Assign) and len(x.targets) == 1 and isinstance(x.targets[0], ast.Name) and X.is_name(x.value, n) \
+                        and len([y for y in walk_own(fn) if isinstance(y, ast.Assign) and any(X.is_name(t_, x.targets[0].id) for t_ in y.targets)]) == 1:
+                    names.add(x.targets[0].id)
+            for nm in names:
+                t = nf.canon(s_.test)
+                if X.any_match(["not %s" % nm, "len(%s) == 0" % nm, "%s == []" % nm], t) is not None:
+                    found = (s_, n, 'true', init)
+                elif X.any_match(["%s" % nm, "len(%s) > 0" % nm, "len(%s)" % nm, "%s != []" % nm, "len(%s) != 0" % nm], t) is not None:
+                    found = (s_, n, 'false', init)
+    if found is None:
+        return False
+    tstmt, E, noprog_edge, init = found
+    in_loop = [x for x in cfg.nodes if x.ast is not None and x.kind == 'stmt' and _in_subtree(x.ast, w)]
+    appends = [x for x in in_loop if X.m(X.spat("%s.append(_S)" % E), x.ast) is not None]
+    others = [x for x in ast.walk(w) if isinstance(x, ast.Attribute) and X.is_name(x.value, E) and x.attr in (
+        'clear', 'pop', 'remove', 'extend', 'insert', 'sort', 'reverse') and isinstance(parent(x), ast.Call)]
+    rewrites = [x for x in in_loop if x.ast is not init and isinstance(x.ast, (ast.Assign, ast.AugAssign, ast.Delete)) and E in X.assigned_names(x.ast)]
+    if others or rewrites:
+        raise AnalysisError('the list of evaluated dependents `%s` is changed by more than appends' % E)
+    removals = [x for x in in_loop if _removes_from(x.ast, pending)]
+    tnode = [x for x in cfg.nodes_of(tstmt) if x.kind == 'test'][0]
+    initn = cfg.nodes_of(init)
+    where = lib.loc(fi, tstmt)
+    reach = cfg.reach([wt], blocked=initn, include_starts=False, blocked_edges=[(wt, 'false')])
+    r.check(tnode not in reach and not any(x in reach for x in appends),
+            'gen_symbols_samples: the list of evaluated dependents is emptied at the start of every round',
+            '`%s = []` precedes every append and the end-of-round test' % E,
+            'a round can reach the end-of-round test / an append before `%s = []`: dependents evaluated in an earlier round still count as '
+            'progress, a later round without progress is not noticed and the loop spins forever' % E, lib.loc(fi, init))
+    r.ok('gen_symbols_samples: progress recorded for one dependent is kept until the end of the round',
+         'the list `%s` only grows within a round' % E, where)
+    if not appends:
+        X.absent(r, 'gen_symbols_samples: %s records a dependent when it was computed' % E,
+                 'nothing is ever appended to `%s`: every round counts as "no progress", so valid dependency chains are reported as '
+                 'circular' % E, where)
+    else:
+        reach = cfg.reach([wt], blocked=removals, include_starts=False, blocked_edges=[(wt, 'false')])
+        bad = [x for x in appends if x in reach]
+        r.check(not bad, 'gen_symbols_samples: %s grows only where a pending dependent was removed' % E,
+                'each append is preceded in its round by a removal from %s' % pending,
+                '`%s.append(...)` can be reached in a round that removed nothing from %s: such a round repeats forever' % (E, pending),
+                lib.loc(fi, (bad or appends)[0].ast))
+    _no_progress_raises(r, fi, cfg, w, wt, tstmt, noprog_edge, where, pending=pending)
+    return True
+
+
+# ------------------------------------------------------------------ feasibility of a silent exit from the stall report
+KINDS = ('sample', 'other', 'self', 'undefined')      # what a dependency of a pending symbol can be: a key of the sample dict,
+                                                      # another pending symbol, the symbol itself, nothing at all
+KIND_TEXT = {'sample': 'a value that is already in the sample', 'other': 'another pending dependent', 'self': 'ITSELF',
+             'undefined': 'a name nothing defines'}
+
+
+def _item_pred(e, item, sym, pending, sample):
+    """Predicate over a dependency kind for a condition on `item`, or None."""
+    e = nf.canon(e)
+    if isinstance(e, ast.BoolOp):
+        parts = [_item_pred(v, item, sym, pending, sample) for v in e.values]
+        if any(p_ is None for p_ in parts):
+            return None
+        return (lambda k: all(p_(k) for p_ in parts)) if isinstance(e.op, ast.And) else (lambda k: any(p_(k) for p_ in parts))
+    if isinstance(e, ast.UnaryOp) and isinstance(e.op, ast.Not):
+        inner = _item_pred(e.operand, item, sym, pending, sample)
+        return None if inner is None else (lambda k: not inner(k))
+    for ptn, f in (("%s in %s" % (item, pending), lambda k: k in ('other', 'self')), ("%s not in %s" % (item, pending), lambda k: k not in ('other', 'self')),
+                   ("%s in %s" % (item, sample), lambda k: k == 'sample'), ("%s not in %s" % (item, sample), lambda k: k != 'sample')):
+        if X.m(ptn, e) is not None:
+            return f
+    if sym is not None:
+        for ptn, f in (("%s != %s" % (item, sym), lambda k: k != 'self'), ("%s == %s" % (item, sym), lambda k: k == 'self'),
+                       ("%s != %s" % (sym, item), lambda k: k != 'self'), ("%s == %s" % (sym, item), lambda k: k == 'self')):
+            if X.m(ptn, e) is not None:
+                return f
+    return None
+
+
+def _symbol_pred(e, sym, deps, pending, sample):
+    """Predicate over the set of dependency kinds of one pending symbol for a condition on (symbol, its depends), or None."""
+    e = nf.canon(e)
+    if isinstance(e, ast.BoolOp):
+        parts = [_symbol_pred(v, sym, deps, pending, sample) for v in e.values]
+        if any(p_ is None for p_ in parts):
+            return None
+        return (lambda ks: all(p_(ks) for p_ in parts)) if isinstance(e.op, ast.And) else (lambda ks: any(p_(ks) for p_ in parts))
+    if isinstance(e, ast.UnaryOp) and isinstance(e.op, ast.Not):
+        inner = _symbol_pred(e.operand, sym, deps, pending, sample)
+        return None if inner is None else (lambda ks: not inner(ks))
+    if X.any_match(["is_subset(%s, %s)" % (d, sample) for d in deps], e) is not None:
+        return lambda ks: ks <= {'sample'}
+    if isinstance(e, ast.Call) and isinstance(e.func, ast.Name) and e.func.id in ('any', 'all') and len(e.args) == 1 \
+            and isinstance(e.args[0], (ast.GeneratorExp, ast.ListComp)) and len(e.args[0].generators) == 1:
+        g = e.args[0].generators[0]
+        if isinstance(g.target, ast.Name) and any(X.m(d, g.iter) is not None for d in deps):
+            body = _item_pred(e.args[0].elt, g.target.id, sym, pending, sample)
+            flt = [_item_pred(t, g.target.id, sym, pending, sample) for t in g.ifs]
+            if body is None or any(f is None for f in flt):
+                return None
+            keep = lambda k: all(f(k) for f in flt)
+            if e.func.id == 'any':
+                return lambda ks: any(body(k) for k in ks if keep(k))
+            return lambda ks: all(body(k) for k in ks if keep(k))
+    return None
+
+
+def _culprits_pred(e, pending, sample, env):
+    """For an expression listing culprits among the pending symbols / their dependencies: predicate over one symbol's kinds
+    telling whether that symbol contributes an element; None if the expression is not read."""
+    hops = 0
+    while isinstance(e, ast.Name) and e.id in env and hops < 4:
+        e, hops = env[e.id], hops + 1
+    if isinstance(e, ast.Call) and isinstance(e.func, ast.Name) and e.func.id in ('list', 'sorted', 'set', 'tuple', 'frozenset') and len(e.args) == 1:
+        return _culprits_pred(e.args[0], pending, sample, env)
+    if X.any_match([pending, "%s.keys()" % pending, "%s.items()" % pending, "%s.values()" % pending], e) is not None:
+        return lambda ks: True
+    if isinstance(e, (ast.ListComp, ast.SetComp, ast.GeneratorExp)) and len(e.generators) == 1:
+        g = e.generators[0]
+        it = g.iter
+        hops = 0
+        while isinstance(it, ast.Name) and it.id in env and it.id != pending and hops < 4:
+            it, hops = env[it.id], hops + 1
+        if X.m("%s.items()" % pending, it) is not None and isinstance(g.target, ast.Tuple) and len(g.target.elts) == 2 \
+                and all(isinstance(t, ast.Name) for t in g.target.elts):
+            sym, deps = g.target.elts[0].id, [g.target.elts[1].id, "%s[%s]" % (pending, g.target.elts[0].id)]
+        elif X.any_match([pending, "%s.keys()" % pending, "list(%s)" % pending], it) is not None and isinstance(g.target, ast.Name):
+            sym, deps = g.target.id, ["%s[%s]" % (pending, g.target.id)]
+        elif X.any_match(["set().union(*%s.values())" % pending, "set.union(*%s.values())" % pending,
+                          "set(itertools.chain.from_iterable(%s.values()))" % pending, "set(chain.from_iterable(%s.values()))" % pending,
+                          "{_I for _D in %s.values() for _I in _D}" % pending], it) is not None and isinstance(g.target, ast.Name):
+            flt = [_item_pred(t, g.target.id, None, pending, sample) for t in g.ifs]
+            if any(f is None for f in flt):
+                return None
+            return lambda ks: any(all(f(k) for f in flt) for k in ks)
+        else:
+            return None
+        flt = [_symbol_pred(t, sym, deps, pending, sample) for t in g.ifs]
+        if any(f is None for f in flt):
+            return None
+        return lambda ks: all(f(ks) for f in flt)
+    return None
+
+
+def _silent_exit(fi, branch, pending, sample):
+    """Reads the no-progress branch as decision paths and looks, over the complete domain of dependency kinds, for a state
+    of the pending dict (non-empty, nobody ready) in which a path that does not raise is taken.
+    Returns ('none',) / ('feasible', text) / ('unknown', text)."""
+    import itertools
+    try:
+        paths = nf.decision_paths(branch)
+    except AnalysisError as e:
+        return ('unknown', str(e))
+    silent = [p_ for p_ in paths if p_.leaf.kind != 'raise']
+    if not silent:
+        return ('none',)
+    types = [frozenset(c) for n in range(1, len(KINDS) + 1) for c in itertools.combinations(KINDS, n)]
+    types = [t for t in types if not t <= {'sample'}]                      # nobody is ready: each symbol misses a dependency
+    configs = [(a,) for a in types if 'other' not in a] + [(a, b) for a in types for b in types]
+    verdict_ = ('none',)
+    for p_ in silent:
+        preds = []
+        unknown = None
+        for g in p_.guards:
+            neg = isinstance(g, ast.UnaryOp) and isinstance(g.op, ast.Not)
+            core = g.operand if neg else g
+            if isinstance(core, ast.Compare) and X.m("len(_C) == 0", core) is not None:
+                core, neg = X.m("len(_C) == 0", core)['_C'], not neg
+            elif isinstance(core, ast.Compare) and X.any_match(["len(_C) > 0", "len(_C) != 0"], core) is not None:
+                core = X.any_match(["len(_C) > 0", "len(_C) != 0"], core)['_C']
+            cp = _culprits_pred(core, pending, sample, {})
+            if cp is None:
+                unknown = g
+                continue
+            preds.append((cp, neg))
+        witness = None
+        for cfg_ in configs:
+            # `cp` tells whether a symbol contributes a culprit; the collection is non-empty iff some symbol does
+            if all((any(cp(t) for t in cfg_)) != neg for cp, neg in preds):
+                witness = cfg_
+                break
+        if witness is None:
+            continue
+        if unknown is not None:
+            calls = {nf.callee_name(c) for c in ast.walk(unknown) if isinstance(c, ast.Call)} - {
+                'any', 'all', 'len', 'sorted', 'list', 'set', 'join', 'is_subset', 'keys', 'values', 'items', 'union', None}
+            if calls:
+                verdict_ = ('unknown', 'condition `%s` on a path that does not raise is not read' % short(unknown))
+                continue
+        t0 = witness[0] if len(witness) == 1 else min(witness, key=len)
+        text = 'e.g. %s depends on %s' % ('a single pending dependent that' if len(witness) == 1 else 'two pending dependents, one of which',
+                                          ' and '.join(KIND_TEXT[k] for k in KINDS if k in t0))
+        return ('feasible', text)
+    return verdict_
+
+
+def _no_progress_raises(r, fi, cfg, w, wt, tstmt, noprog_edge, where, pending=None):
     # (c) the no-progress branch always raises
     branch = tstmt.body if noprog_edge == 'true' else tstmt.orelse
     if not branch:
@@ -314,15 +526,38 @@ def _no_progress_raises(r, fi, cfg, w, wt, tstmt, noprog_edge, where):
              and n is not wt]
     if after and not escapes:
         escapes.append('continues with `%s`' % short(after[0].ast, 50))
-    r.check(not escapes, 'gen_symbols_samples: a round without progress always raises',
-            'no path from the no-progress branch reaches the loop head, a return or later statements',
-            'a path of the no-progress branch %s: circular or undefined dependencies %s' % (
-                ' / '.join(escapes), 'make the loop spin forever' if 'goes on to the next round' in escapes else 'yield a value'),
-            where, expected='raise ConfigError on every path')
+    if escapes and pending is not None and not any(isinstance(x, (ast.For, ast.While, ast.Try, ast.With)) for s_ in branch for x in ast.walk(s_)):
+        # the branch is a chain of "collect culprits, raise if any": a silent exit may be infeasible (e.g. the last collection
+        # is the whole pending dict, which is not empty inside `while pending`)
+        sample = None
+        for c_ in ast.walk(w):
+            if isinstance(c_, ast.Call) and nf.callee_name(c_) == 'compute_sample' and c_.args and isinstance(c_.args[0], ast.Name):
+                sample = c_.args[0].id
+        res = _silent_exit(fi, branch, pending, sample) if sample else ('unknown', 'sample dict not identified')
+        construct = 'gen_symbols_samples: a round without progress always raises'
+        if res[0] == 'none':
+            r.ok(construct, 'every path of the stall report that does not raise is infeasible over the domain of dependency kinds', where)
+            escapes = None
+        elif res[0] == 'feasible':
+            r.violation(construct, 'the stall report can end without raising (%s: no reported cause lists a culprit), the loop then %s: '
+                        'that configuration makes gen_symbols_samples spin forever instead of raising ConfigError' % (
+                            res[1], 'goes on to the next round' if 'goes on to the next round' in escapes else ' / '.join(escapes)), where, expected='the last cause raises unconditionally (all pending dependents)')
+            escapes = None
+        else:
+            r.undecided(construct, res[1], where)
+            escapes = None
+    if escapes is None:
+        pass
+    else:
+        r.check(not escapes, 'gen_symbols_samples: a round without progress always raises',
+                'no path from the no-progress branch reaches the loop head, a return or later statements',
+                'a path of the no-progress branch %s: circular or undefined dependencies %s' % (
+                    ' / '.join(escapes), 'make the loop spin forever' if 'goes on to the next round' in escapes else 'yield a value'),
+                where, expected='raise ConfigError on every path')
     raises = [n.ast for n in reach if n.kind == 'stmt' and isinstance(n.ast, ast.Raise)]
     classes = sorted({nf.exc_class_name(x.exc) or 're-raise' for x in raises})
     if not raises:
-        if not escapes:
+        if escapes is not None and not escapes:
             raise AnalysisError('no raise statement in the no-progress branch')
     else:
         bad = [c for c in classes if c != 'ConfigError']
@@ -867,11 +1102,15 @@ def d2_keys(ctx, idx):
         if len(wdefs) != 1:
             raise AnalysisError('definition of the pending dict not unique')
         subset_polarity = A.subset_polarity
-        if A.planned:
-            # the ordering loop consumes a copy of the dependents' dict; it runs once, before the samples
-            src_ = X.copy_source(wdefs[0].value)
-            if isinstance(src_, ast.Name) and len(A.assigns(src_.id)) == 1:
-                wdefs = A.assigns(src_.id)
+        wsite = wdefs[0]
+        src_ = X.copy_source(wdefs[0].value)
+        if isinstance(src_, ast.Name) and len(A.assigns(src_.id)) == 1 and (A.planned or (
+                not X.in_subtree(A.assigns(src_.id)[0], A.sample_loop) and X.dominates(fi, A.assigns(src_.id)[0], A.sample_loop)
+                and not [x for x in ast.walk(A.sample_loop) if isinstance(x, (ast.Subscript, ast.Attribute)) and X.is_name(x.value, src_.id)
+                         and (isinstance(getattr(x, 'ctx', None), (ast.Store, ast.Del)) or getattr(x, 'attr', '') in (
+                             'pop', 'popitem', 'clear', 'update', 'setdefault'))])):
+            # the dict is built once and every sample (or the ordering loop) consumes a fresh copy of it
+            wdefs = A.assigns(src_.id)
         cands = {'symbols'} | {n for n in (x.id for x in ast.walk(wdefs[0].value) if isinstance(x, ast.Name)) if subset_polarity(n) in (1, -1)}
         cw = _comp_over(wdefs[0].value, cands)
         if cw is None or not isinstance(cw[0], ast.DictComp):
@@ -888,13 +1127,13 @@ def d2_keys(ctx, idx):
                 eff = 0
             elif base in (1, -1) and not ifs:
                 eff = base
-            if eff == 1 and valok and (X.in_subtree(wdefs[0], A.sample_loop) or (A.planned and X.dominates(fi, wdefs[0], A.w))):
+            if eff == 1 and valok and (X.in_subtree(wsite, A.sample_loop) or (A.planned and X.dominates(fi, wdefs[0], A.w))):
                 r.ok(construct_w, short(wdefs[0].value, 90), lib.loc(fi, wdefs[0]))
             elif eff == -1:
                 r.violation(construct_w, 'the selection is negated: the independent symbols are treated as pending dependents', lib.loc(fi, wdefs[0]))
             elif eff == 0:
                 r.violation(construct_w, 'no filter: every symbol is treated as a dependent', lib.loc(fi, wdefs[0]))
-            elif eff == 1 and valok and not X.in_subtree(wdefs[0], A.sample_loop) and not A.planned:
+            elif eff == 1 and valok and not X.in_subtree(wsite, A.sample_loop) and not A.planned:
                 r.violation(construct_w, 'the pending dict is built once outside the sample loop: after the first sample it is empty and '
                             'later samples contain no dependents', lib.loc(fi, wdefs[0]))
             else:
@@ -2303,7 +2542,13 @@ _W5J_LOOP = ('        # Generate dependent samples, following chains as necessar
 _W5R_SPLIT = [('    independent = [\n        symbol for symbol in symbols\n        if not isinstance(sample_from[symbol], DependentSampler)\n    ]\n\n', '    independent, dependent = [], []\n    for symbol in symbols:\n        if isinstance(sample_from[symbol], DependentSampler):\n            dependent.append(symbol)\n        else:\n            independent.append(symbol)\n\n'), ("        unevaluated_dependents = {\n            symbol: sample_from[symbol].config['depends'] for symbol in symbols\n            if isinstance(sample_from[symbol], DependentSampler)\n        }\n", "        unevaluated_dependents = {symbol: sample_from[symbol].config['depends'] for symbol in dependent}\n"), ('            for symbol, dependencies in list(unevaluated_dependents.items()):\n                if is_subset(dependencies, sample_dict):\n                    sample_dict[symbol] = sample_from[symbol].compute_sample(\n                        sample_dict, functions, suffixes)\n                    del unevaluated_dependents[symbol]\n                    progress_made = True\n', '            for symbol in list(unevaluated_dependents):\n                if not is_subset(unevaluated_dependents[symbol], sample_dict):\n                    continue\n                sample_dict[symbol] = sample_from[symbol].compute_sample(sample_dict, functions, suffixes)\n                del unevaluated_dependents[symbol]\n                progress_made = True\n')]
 _W5R_MATCH = [("        regexp = numbered_vars_regexp(self.config['numbered_vars'])\n        for var in bad_vars:\n            match = regexp.match(var)  # Returns None if no match\n            if match:\n                # This variable is a numbered_variable\n                # Go and add it to variable_list with the appropriate sampler\n                (full_string, head) = match.groups()\n                variable_list.append(full_string)\n                sample_from_dict[full_string] = sample_from_dict[head]\n\n", '        for full_string, head in self._match_numbered_vars(bad_vars):\n            variable_list.append(full_string)\n            sample_from_dict[full_string] = sample_from_dict[head]\n\n'), ('    def generate_variable_list(self, expressions):\n', "    def _match_numbered_vars(self, candidates):\n        regexp = numbered_vars_regexp(self.config['numbered_vars'])\n        matches = [regexp.match(var) for var in candidates]\n        return [match.groups() for match in matches if match]\n\n    def generate_variable_list(self, expressions):\n")]
 
+_W6_HELPERS = ('def gen_symbols_samples(symbols,', 'def evaluate_ready_dependents(pending, sample_dict, sample_from, functions, suffixes):\n    """\n    Helper function for gen_symbols_samples below.\n    Makes one pass over the pending dependent symbols (a dictionary symbol -> dependencies),\n    evaluating into sample_dict each one whose dependencies are all available by the time it\n    is visited, and removing it from pending. Returns the list of symbols evaluated.\n    """\n    evaluated = []\n    for symbol, dependencies in list(pending.items()):\n        if is_subset(dependencies, sample_dict):\n            sample_dict[symbol] = sample_from[symbol].compute_sample(\n                sample_dict, functions, suffixes)\n            del pending[symbol]\n            evaluated.append(symbol)\n    return evaluated\n\ndef find_undefined_quantities(pending, sample_dict):\n    """Lists the dependencies of pending symbols that nothing will ever provide"""\n    all_depends = set().union(*pending.values())\n    return [item for item in all_depends\n            if item not in pending and item not in sample_dict]\n\ndef find_circular_dependents(pending, sample_dict):\n    """Lists the pending symbols that are waiting on another symbol that is itself pending"""\n    return [symbol for symbol, dependencies in pending.items()\n%s\n# Possible causes for no pending DependentSampler being ready for evaluation.\n# The first cause that names any culprits is the one reported.\nSTALLED_DEPENDENTS_CAUSES = [\n    (find_undefined_quantities, "DependentSamplers depend on undefined quantities: "),\n    (find_circular_dependents, "Circularly dependent DependentSamplers detected: "),\n]\n\ndef report_stalled_dependents(pending, sample_dict):\n    """\n    Helper function for gen_symbols_samples below.\n    Raises the ConfigError explaining why none of the pending symbols can be evaluated.\n    """\n    for find_culprits, message in STALLED_DEPENDENTS_CAUSES:\n        culprits = find_culprits(pending, sample_dict)\n        if culprits:\n            raise ConfigError(message + ", ".join(sorted(culprits)))\n\ndef gen_symbols_samples(symbols,')
+_W6_MID = ('    pruned_constants = {sym: constants[sym] for sym in constants if sym not in symbols}\n', "    dependents = {\n        symbol: sample_from[symbol].config['depends'] for symbol in symbols\n        if isinstance(sample_from[symbol], DependentSampler)\n    }\n\n    pruned_constants = {sym: constants[sym] for sym in constants if sym not in symbols}\n")
+_W6_LOOP = ('        unevaluated_dependents = {\n            symbol: sample_from[symbol].config[\'depends\'] for symbol in symbols\n            if isinstance(sample_from[symbol], DependentSampler)\n        }\n        while unevaluated_dependents:\n            progress_made = False\n            for symbol, dependencies in list(unevaluated_dependents.items()):\n                if is_subset(dependencies, sample_dict):\n                    sample_dict[symbol] = sample_from[symbol].compute_sample(\n                        sample_dict, functions, suffixes)\n                    del unevaluated_dependents[symbol]\n                    progress_made = True\n\n            if not progress_made:\n                # Two possible causes\n                # 1: Depends on variables that are undefined\n                # Check for this first\n                all_depends = set()\n                for symbol, dependencies in list(unevaluated_dependents.items()):\n                    for item in dependencies:\n                        all_depends.add(item)\n                bad_items = []\n                for item in all_depends:\n                    if item not in unevaluated_dependents and item not in sample_dict:\n                        bad_items.append(item)\n                if bad_items:\n                    bad_symbols = ", ".join(sorted(bad_items))\n                    raise ConfigError("DependentSamplers depend on undefined quantities: " +\n                                      bad_symbols)\n\n                # 2: Circular dependencies\n                bad_symbols = ", ".join(sorted(unevaluated_dependents.keys()))\n                raise ConfigError("Circularly dependent DependentSamplers detected: " +\n                                  bad_symbols)\n\n', '        unevaluated_dependents = dependents.copy()\n        while unevaluated_dependents:\n            if not evaluate_ready_dependents(unevaluated_dependents, sample_dict,\n                                             sample_from, functions, suffixes):\n                report_stalled_dependents(unevaluated_dependents, sample_dict)\n\n')
+_W6_SLIP = '            if any(item in pending for item in dependencies if item != symbol)]\n'
+
 MUTANTS = [
+    Mutant('stall-report-silent-for-self-reference', SAMPLING, [(_W6_HELPERS[0], _W6_HELPERS[1] % _W6_SLIP), _W6_MID, _W6_LOOP], None, 'D1'),
     Mutant('partition-loop-branches-swapped', SAMPLING, [(_W5R_SPLIT[0][0], _W5R_SPLIT[0][1].replace('dependent.append(symbol)\n        else:\n            independent.append(symbol)', 'independent.append(symbol)\n        else:\n            dependent.append(symbol)')), _W5R_SPLIT[1], _W5R_SPLIT[2]], None, 'D2'),
     Mutant('numbered-helper-appends-head', MH, [(_W5R_MATCH[0][0], _W5R_MATCH[0][1].replace('variable_list.append(full_string)', 'variable_list.append(head)')), _W5R_MATCH[1]], None, 'D5'),
     Mutant('planned-order-never-makes-ready-available', SAMPLING, [(_W5J_HELPER[0], _W5J_HELPER[1].replace("        available.update(ready)\n", "")),
@@ -2369,6 +2614,7 @@ MUTANTS = [
 ]
 
 BENIGN = [
+    Benign('stall-report-as-cause-table', SAMPLING, [(_W6_HELPERS[0], _W6_HELPERS[1] % _W6_SLIP.replace(' if item != symbol', '')), _W6_MID, _W6_LOOP], None),
     Benign('partition-loop-and-keys-loop', SAMPLING, _W5R_SPLIT, None),
     Benign('numbered-matches-from-helper', MH, _W5R_MATCH, None),
     Benign('evaluation-order-planned-once', SAMPLING, [_W5J_HELPER, (_W5J_MID[0], _W5J_MID[1] % 'pruned_constants'), _W5J_LOOP], None),
